@@ -118,7 +118,8 @@ Definition apply_edits (k : kernel) (es : list edit) : kernel :=
 Record rule := { r_line : line; r_ref : option string }.   (* rendered rule (with its hash) + jump/goto target *)
 Record chain := { ch_rules : list rule; ch_force : bool }.
 (* [cf_fix]: the tree carries fixes/C15-force-downgrade-refcount-leak.patch (the driver probes the tree) *)
-Record config := { cf_prefixes : list string; cf_append : bool; cf_kchains : list string; cf_fix : bool }.
+(* [cf_nft]: BackendMode nft (iptables-nft workarounds: dirty chains are flushed and rewritten whole) *)
+Record config := { cf_prefixes : list string; cf_append : bool; cf_kchains : list string; cf_fix : bool; cf_nft : bool }.
 
 Definition owned (cf : config) (c : string) : bool := existsb (fun p => String.prefix p c) (cf_prefixes cf).
 
@@ -378,11 +379,37 @@ Fixpoint pass3_all (cf : config) (t : table) (cs : list string) : option (list c
       end
   end.
 
-Definition apply_cmds (cf : config) (t : table) : option (list cmd) :=
+Definition apply_cmds_legacy (cf : config) (t : table) : option (list cmd) :=
   match pass3_all cf t (t_dirtyIA t) with
   | None => None
   | Some p3 => Some (flat_map (pass1 t) (t_dirty t) ++ flat_map (pass2 t) (t_dirty t) ++ p3 ++ flat_map (pass4 t) (t_dirty t))
   end.
+
+(* nft mode: a dirty chain whose (non-empty) cached hashes equal the wanted hashes is dropped from the
+   dirty set; every other dirty chain is flushed and written whole; deletions get a flush in the second
+   transaction (both transactions are one all-or-nothing unit here). *)
+Definition nft_skip (t : table) (c : string) : bool :=
+  match desired t c, get c (t_dp t) with
+  | Some ch, Some (p :: prev) => olist_eqb (Some (hashes_of (ch_rules ch))) (Some (p :: prev))
+  | _, _ => false
+  end.
+Definition pass1n (t : table) (c : string) : list cmd := if nft_skip t c then [] else [(c, BFwd)].
+Definition pass2n (t : table) (c : string) : list cmd :=
+  if nft_skip t c then [] else
+  match desired t c with
+  | Some ch => map (fun d => (c, BAppend d)) (lines_of (ch_rules ch))
+  | None => []
+  end.
+Definition pass4n (t : table) (c : string) : list cmd :=
+  match desired t c with None => [(c, BFwd); (c, BDelChain)] | Some _ => [] end.
+Definition apply_cmds_nft (cf : config) (t : table) : option (list cmd) :=
+  match pass3_all cf t (t_dirtyIA t) with
+  | None => None
+  | Some p3 => Some (flat_map (pass1n t) (t_dirty t) ++ flat_map (pass2n t) (t_dirty t) ++ p3 ++ flat_map (pass4n t) (t_dirty t))
+  end.
+
+Definition apply_cmds (cf : config) (t : table) : option (list cmd) :=
+  if cf_nft cf then apply_cmds_nft cf t else apply_cmds_legacy cf t.
 
 (* state after a successful applyUpdates *)
 Definition commit_dp (t : table) (dp : smap (list N)) (c : string) : smap (list N) :=
